@@ -16,16 +16,16 @@ import (
 )
 
 type AggObl struct {
-	Func     string   `json:"func"`
-	Name     string   `json:"name"`
-	Kinds    []string `json:"kinds"`
-	Queries  int      `json:"queries"`
-	Status   string   `json:"status"` // discharged | refuted | undecided
-	Solver   string   `json:"solver"`
-	Ms       int64    `json:"ms"`
-	Detail   string   `json:"detail,omitempty"`
-	failing  *Obligation
-	failVC   *VC
+	Func    string   `json:"func"`
+	Name    string   `json:"name"`
+	Kinds   []string `json:"kinds"`
+	Queries int      `json:"queries"`
+	Status  string   `json:"status"` // discharged | refuted | undecided
+	Solver  string   `json:"solver"`
+	Ms      int64    `json:"ms"`
+	Detail  string   `json:"detail,omitempty"`
+	failing *Obligation
+	failVC  *VC
 }
 
 type FuncReport struct {
@@ -127,14 +127,14 @@ func cmdCheck(args []string) int {
 }
 
 type CheckRun struct {
-	P       *Prog
-	Prop    string
-	Tier    string
-	Work    string
-	Verif   string
-	Verbose bool
-	Only    string
-	T0      time.Time
+	P              *Prog
+	Prop           string
+	Tier           string
+	Work           string
+	Verif          string
+	Verbose        bool
+	Only           string
+	T0             time.Time
 	UpdateBaseline bool
 }
 
@@ -288,7 +288,7 @@ func (r *CheckRun) Run() (code int) {
 					}
 					name := "[" + strings.Join(e.Labels, ",") + "]"
 					if len(e.Labels) == 0 {
-						name = fmt.Sprintf("ensures@%d", e.Line)
+						name = unlabelledName(e)
 					}
 					if !have[name] {
 						err = fmt.Errorf("%s: postcondition %s produced no obligation (no normal return was translated)", k, name)
@@ -387,7 +387,7 @@ func (r *CheckRun) Run() (code int) {
 			}
 		}
 		freports = append(freports, FuncReport{Key: vc.key, Obligations: n, Discharged: d,
-			Covers: fmt.Sprintf("%d reachable, %d unreachable, %d unknown", coverSat, coverUnsat, coverUnknown),
+			Covers:      fmt.Sprintf("%d reachable, %d unreachable, %d unknown", coverSat, coverUnsat, coverUnknown),
 			Unsupported: vc.unsupported, Warnings: vc.warnings, Uncontracted: sortedKeys(vc.uncontracted),
 			Assumed: sortedKeys(vc.assumedUsed), DefaultExt: sortedKeys(vc.defaultExt), SolverMs: solverMs})
 	}
